@@ -1,14 +1,67 @@
 import CircBuf.Lemmas.TieTac
+import CircBuf.Lemmas.Run
 set_option linter.unusedSimpArgs false
 set_option linter.unusedVariables false
 set_option maxHeartbeats 1000000
 /-! Tie theorems (remove / make_contiguous) — see `CircBuf/Lemmas/CoreTie.lean` for what they are. -/
 namespace CircBuf
 
+/-- `ptr::copy` of zero elements -/
+theorem copy_len_zero (f : Nat → Cell) (src dst : Nat) : copy f src dst 0 = f := by
+  funext j
+  simp only [copy]
+  split
+  · exfalso; omega
+  · rfl
+
+/-- a fact about the hand-written model only: removing the last element is `pop_back` (nothing moves).
+A body of `remove` may treat this case separately; the tie then compares that branch with `popBack`
+instead of pushing the index `size - 1` through the general three-`copy` case analysis. -/
+theorem remove_last_eq_popBack (s : Sys) (h : Inv s.buf) (hpos : 1 ≤ s.buf.size) :
+    remove (s.buf.size - 1) s = popBack s := by
+  have hsz := h.size_le; have hst := h.start_lt; have hcw := h.cap_lt
+  have hcap : 0 < s.buf.cap := by omega
+  have hp : phys s.buf.start s.buf.cap (s.buf.size - 1) < s.buf.cap := phys_lt _ _ _ hcap
+  have hc0 : ¬ (s.buf.cap = 0 ∨ s.buf.size - 1 ≥ s.buf.size) := by omega
+  have hc1 : ¬ (s.buf.cap = 0 ∨ s.buf.size = 0) := by omega
+  unfold remove popBack backSlot decSize readInit
+  mrun [hc0, hc1, checkIdx_run s _ hp, Nat.le_refl, Nat.sub_self, copy_len_zero, setItems, setSize]
+  cases hcell : s.buf.items (phys s.buf.start s.buf.cap (s.buf.size - 1)) with
+  | none => mrun [hcell]
+  | some v => mrun [hcell, checkIdx_run, Nat.le_refl, Nat.sub_self, copy_len_zero, setItems, setSize]
+
+/-! The last element (`i = size - 1`), two ways.  (b) pushes that index through whatever the body does in
+general — fine for the pinned body, too large a case analysis for a body that handles this case on its own
+and then goes on with the facts `i ≠ size - 1`.  (a) compares with `popBack` (`remove_last_eq_popBack`) —
+fine for such a body.  A time-out is not an error `first` can catch, hence two declarations with a reduced
+budget: (a) is attempted only when (b) does not exist. -/
+set_option maxHeartbeats 400000 in
+maybe theorem tie_remove_last_b (s : Sys) (h : Inv s.buf) (hpos : 1 ≤ s.buf.size)
+    (hnd : NonDefect (remove (s.buf.size - 1) s).1) :
+    Gen.remove (s.buf.size - 1) s = remove (s.buf.size - 1) s := by
+  first
+  | rfl
+  | tie3 h hnd [Gen.remove, remove]
+
+maybe theorem tie_remove_last (s : Sys) (h : Inv s.buf) (hpos : 1 ≤ s.buf.size)
+    (hnd : NonDefect (remove (s.buf.size - 1) s).1) :
+    Gen.remove (s.buf.size - 1) s = remove (s.buf.size - 1) s := by
+  first
+  | exact tie_remove_last_b s h hpos hnd
+  | (rw [remove_last_eq_popBack s h hpos] at hnd ⊢
+     tie3 h hnd [Gen.remove, popBack])
+
 maybe theorem tie_remove (i : Nat) (s : Sys) (h : Inv s.buf)
     (hnd : NonDefect (remove i s).1) :
     Gen.remove i s = remove i s := by
-  tie3 h hnd [Gen.remove, remove]
+  first
+  | rfl
+  | (by_cases hl : i + 1 = s.buf.size
+     · have hl' : i = s.buf.size - 1 := by omega
+       have hpos : 1 ≤ s.buf.size := by omega
+       subst hl'
+       exact tie_remove_last s h hpos hnd
+     · tie3 h hnd [Gen.remove, remove])
 maybe theorem tie_make_contiguous (s : Sys) (h : Inv s.buf)
     (hnd : NonDefect (makeContiguous s).1) :
     Gen.make_contiguous s = makeContiguous s := by
